@@ -53,6 +53,7 @@ pub fn base(prop: &str, seed: u64, max_blocks: u64, max_peers: u64) -> Base {
         n_locks: rng.range(2, 6) as usize,
         n_types: rng.range(0, 2) as usize,
         ext_extra_pct: pick(&mut rng, &[0u64, 20, 100]),
+        trend: pick(&mut rng, &[0u64, 0, 0, 1, 2, 3]),
     };
     let blocks_cap = if pow == PowKind::Eaglesong {
         max_blocks.min(120)
@@ -215,6 +216,14 @@ fn gen_c05_like(seed: u64, prop: &str) -> Plan {
     let until = b.rng.range(30_000, 200_000);
     growth(&mut b, until);
     honest_faults(&mut b, until, true, false);
+    // bursts: a proven peer announces a tip far ahead (sampled proof on top of a prove state,
+    // across several epochs)
+    let bursts = b.rng.range(0, 3);
+    for _ in 0..bursts {
+        let at = b.rng.range(10_000, until);
+        let n = b.rng.range(b.plan.knobs.last_n + 1, b.plan.knobs.last_n + 120);
+        add(&mut b.plan, at, Action::Mine { branch: 0, n });
+    }
     if b.rng.chance(1, 2) {
         let at = b.rng.range(0, until);
         let tip = b.plan.initial_blocks;
@@ -445,6 +454,11 @@ fn gen_c09(seed: u64) -> Plan {
 fn gen_c08(seed: u64) -> Plan {
     let mut b = base("C08", seed, 60, 2);
     b.plan.trace_logging = false;
+    if b.rng.chance(2, 3) {
+        b.plan.knobs.check_point_interval = pick(&mut b.rng, &[4u64, 8]);
+        b.plan.initial_blocks = b.plan.initial_blocks.max(3 * b.plan.knobs.check_point_interval + b.rng.range(2, 20));
+        b.plan.knobs.max_outbound = b.rng.range(1, (2 * b.plan.peers.len() as u64 - 1).max(1)) as u32;
+    }
     connect_all(&mut b, 2_000);
     let until = b.rng.range(15_000, 60_000);
     // a little growth while syncing
